@@ -40,6 +40,14 @@ def make_datetime_class(clock):
         @classmethod
         def now(cls, tz=None):
             v = clock.read()
+            return cls(v.year, v.month, v.day, v.hour, v.minute, v.second, v.microsecond, tzinfo=tz)
+
+        @classmethod
+        def fromtimestamp(cls, ts, tz=None):
+            # the simulated zone is UTC: local time == UTC, whatever the sandbox's TZ says
+            if tz is not None:
+                return super().fromtimestamp(ts, tz)
+            v = _dt.datetime(1970, 1, 1) + _dt.timedelta(seconds=ts)
             return cls(v.year, v.month, v.day, v.hour, v.minute, v.second, v.microsecond)
 
         @classmethod
@@ -85,12 +93,26 @@ def install_clock_seam(module, clock):
     def _epoch():
         v = clock.read()
         return (v - _dt.datetime(1970, 1, 1)).total_seconds()
+    def _epoch_ns():
+        d = clock.read() - _dt.datetime(1970, 1, 1)
+        return ((d.days * 86400 + d.seconds) * 1000000 + d.microseconds) * 1000
     t_proxy = _TimeModuleProxy('time')
     t_proxy.time = _epoch
+    t_proxy.time_ns = _epoch_ns
     t_proxy.localtime = lambda secs=None: _time.gmtime(_epoch() if secs is None else secs)
     t_proxy.gmtime = lambda secs=None: _time.gmtime(_epoch() if secs is None else secs)
     t_proxy.strftime = lambda fmt, t=None: _time.strftime(fmt, t_proxy.gmtime() if t is None else t)
+    t_proxy.asctime = lambda t=None: _time.asctime(t_proxy.gmtime() if t is None else t)
+    t_proxy.ctime = lambda secs=None: _time.asctime(t_proxy.gmtime(secs))
+    t_proxy.mktime = lambda t: __import__('calendar').timegm(t)      # local zone == UTC in the simulation
+    direct = {}
+    for fn in ('time', 'time_ns', 'localtime', 'gmtime', 'strftime', 'asctime', 'ctime', 'mktime'):
+        direct[id(getattr(_time, fn))] = getattr(t_proxy, fn)
     for name, val in list(vars(module).items()):
+        if callable(val) and id(val) in direct and getattr(val, '__module__', None) == 'time':
+            saved[name] = val                      # `from time import time, localtime`
+            setattr(module, name, direct[id(val)])
+            continue
         if val is _dt.datetime:
             saved[name] = val
             setattr(module, name, sim_dt)
